@@ -473,8 +473,8 @@ macro_rules! kind_reversed {
             }
             true
         }
-        pub fn own_list_str(n: &Node<String, i64, u32>) -> Vec<(String, u32)> {
-            n.iter_out().map(|Edge(_, v, e)| (v.key().clone(), e)).collect()
+        pub fn own_list_str(n: &Node<String, i64, u32>) -> (Vec<(String, u32)>, Vec<(String, u32)>) {
+            (n.iter_out().map(|Edge(_, v, e)| (v.key().clone(), e)).collect(), n.iter_in().map(|Edge(u, _, e)| (u.key().clone(), e)).collect())
         }
         fn nested_search(n: &N, t: usize) -> Option<usize> {
             n.bfs().target(&t).search_path().map(|p| p.len() - 1)
@@ -522,8 +522,8 @@ macro_rules! kind_reversed {
             let _ = it.size_hint();
             true
         }
-        pub fn own_list_str(n: &Node<String, i64, u32>) -> Vec<(String, u32)> {
-            n.iter().map(|Edge(_, v, e)| (v.key().clone(), e)).collect()
+        pub fn own_list_str(n: &Node<String, i64, u32>) -> (Vec<(String, u32)>, Vec<(String, u32)>) {
+            (n.iter().map(|Edge(_, v, e)| (v.key().clone(), e)).collect(), vec![])
         }
         fn nested_search(n: &N, t: usize) -> Option<usize> {
             n.bfs().target(&t).search_path().map(|p| p.len() - 1)
@@ -1249,9 +1249,11 @@ macro_rules! ext_mod {
                                 }
                             }
                             "g.destr" => {
-                                // g.destr <slot> <json|cbor> <hex bytes>: the same container with text keys (`Graph<String, i64, u32>`);
-                                // not modelled, judged by the statement alone: Err exactly when an edge names an undeclared key,
-                                // otherwise the declared nodes and listed edges, and never a panic
+                                // g.destr <slot> <json|cbor> <hex bytes>: the same container with text keys (`Graph<String, i64, u32>`).
+                                // The byte-level models stay at usize keys; a document that can be typed is handed to the abstract
+                                // deserialiser of the model under an injective renaming of its keys (number of first occurrence;
+                                // the theorems of Props/C13 `Serde.*` are generic in the key type), and judged by the statement
+                                // alone in any case: Err exactly when an edge names an undeclared key, never a panic
                                 type GS = Graph<String, i64, u32>;
                                 type DocS = (Vec<(String, i64)>, Vec<(String, String, u32)>);
                                 let bytes = crate::exec_cont::unhex(t.get(3).copied().unwrap_or(""));
@@ -1260,6 +1262,21 @@ macro_rules! ext_mod {
                                 } else {
                                     (serde_cbor::from_slice::<GS>(&bytes).map_err(|e| e.to_string()), serde_cbor::from_slice::<DocS>(&bytes).ok())
                                 };
+                                let mut names: Vec<String> = vec![];
+                                let mut intern = |k: &String| -> usize {
+                                    match names.iter().position(|x| x == k) {
+                                        Some(i) => i,
+                                        None => {
+                                            names.push(k.clone());
+                                            names.len() - 1
+                                        }
+                                    }
+                                };
+                                if let Some((dn, de)) = &doc {
+                                    let ns: Vec<String> = dn.iter().map(|(k, v)| format!("{}:{v}", intern(k))).collect();
+                                    let es: Vec<String> = de.iter().map(|(u, v, e)| format!("{}>{}:{e}", intern(u), intern(v))).collect();
+                                    ext.annot = Some(format!("@abs=seq;{};{}", ns.join(","), es.join(",")));
+                                }
                                 if !ctx.quiet && ctx.oracles.iter().any(|o| o == "c13") {
                                     if let Some((dn, de)) = &doc {
                                         let declared: BTreeSet<&String> = dn.iter().map(|x| &x.0).collect();
@@ -1271,7 +1288,7 @@ macro_rules! ext_mod {
                                                 let mut bad = g.len() != declared.len();
                                                 for (k, n) in g.iter() {
                                                     bad |= !dn.iter().any(|x| x.0 == *k && x.1 == *n.value());
-                                                    for (v, e) in own_list_str(n) {
+                                                    for (v, e) in own_list_str(n).0 {
                                                         bad |= !de.iter().any(|x| (x.0 == *k && x.1 == v || !DIRECTED && x.0 == v && x.1 == *k) && x.2 == e);
                                                     }
                                                 }
@@ -1283,7 +1300,38 @@ macro_rules! ext_mod {
                                         }
                                     }
                                 }
-                                "robust".into()
+                                match (&doc, &r) {
+                                    (None, _) => "robust".into(),
+                                    (Some(_), Err(_)) => "err".into(),
+                                    (Some((dn, _)), Ok(g)) => {
+                                        // the result under the renaming, members in the order of their first declaration
+                                        let mut seen: Vec<usize> = vec![];
+                                        let mut parts: Vec<String> = vec![];
+                                        let mut vals: Vec<String> = vec![];
+                                        for (k, _) in dn {
+                                            let i = intern(k);
+                                            if seen.contains(&i) {
+                                                continue;
+                                            }
+                                            seen.push(i);
+                                            match g.get(k) {
+                                                None => parts.push(format!("{i}:missing")),
+                                                Some(n) => {
+                                                    let (o, inn) = own_list_str(&n);
+                                                    let f = |l: &Vec<(String, u32)>, intern: &mut dyn FnMut(&String) -> usize| -> String {
+                                                        let v: Vec<String> = l.iter().map(|(k, e)| format!("{}:{e}", intern(k))).collect();
+                                                        format!("[{}]", v.join(","))
+                                                    };
+                                                    let os = f(&o, &mut intern);
+                                                    let is = f(&inn, &mut intern);
+                                                    parts.push(if DIRECTED { format!("{i}:{os}/{is}") } else { format!("{i}:{os}") });
+                                                    vals.push(format!("{i}:{}", n.value()));
+                                                }
+                                            }
+                                        }
+                                        format!("ok n={} {} vals={}", g.len(), parts.join(" "), vals.join(","))
+                                    }
+                                }
                             }
                             _ => "bad-op".into(),
                         }
